@@ -167,6 +167,15 @@ func cmdReaders(args []string) {
 			shared = mt.New().Interface()
 			shared.ProtoReflect().SetUnknown(append([]byte(nil), u...))
 		}
+		if i > 0 && i%3 == 2 {
+			// as an application gets it: decoded from the wire (appended-to slices keep spare capacity)
+			if b, err := proto.Marshal(d); err == nil {
+				dec := mt.New().Interface()
+				if proto.Unmarshal(b, dec) == nil {
+					shared = dec
+				}
+			}
+		}
 		if i%2 == 1 {
 			// nil map values / list elements: an extra empty element in every message-valued map and
 			// message list of the reference twin, the same element as a nil pointer in the struct
